@@ -40,6 +40,10 @@ def objective_value(name: str, x):
         if name == "const": return 1.0
         if name == "zero": return 0.0                                                     # every cost exactly 0.0
         if name == "deadzone": return float(np.sum(np.maximum(0.0, np.abs(v - 1.0) - 0.5)))  # a flat region of cost exactly 0.0 around the optimum: a converged swarm ties at 0
+        if name == "pyviolation":
+            # total constraint violation written with Python's builtin max: max(0.0, nan) is 0.0, so a NaN coordinate contributes NOTHING - a NaN candidate looks
+            # perfectly feasible and wins every comparison (the opposite of the arithmetic objectives, under which a NaN candidate loses every comparison)
+            return float(sum(max(0.0, abs(float(t)) - 1.0) for t in v))
         if name == "deathpenalty":                                                            # the usual hard-constraint idiom: +inf outside the feasible region
             return float(np.sum(v * v)) if bool(np.all(np.abs(v) <= 6.0)) else float("inf")
         if name == "violation": return float(np.sum(np.maximum(0.0, np.abs(v) - 4.0)))        # a constraint-violation measure: exactly 0.0 on a large feasible region, positive outside
